@@ -177,6 +177,19 @@ func inspect(ctx *pbt.Ctx, s *bscript.Script, script []byte, how string) (*answe
 	if typ == bscript.ScriptTypeNullData && !prefix {
 		return nil, fmt.Errorf("ScriptType(%s) = nulldata without an OP_RETURN / OP_FALSE OP_RETURN prefix", short(script))
 	}
+	// (tenth round) necessary conditions every definition of the templates shares: the documentation
+	// says "returns true if this is a p2sh output script" / "a public key output script". A P2SH output
+	// script is defined by its bytes (BIP16: exactly 23 bytes, a9 14 <20> 87); a public key output
+	// script is a key push followed by OP_CHECKSIG and nothing else, so it decodes into exactly two
+	// elements, the first a push of 33 or 65 bytes. (Nothing is said about which push forms count.)
+	if isP2SH && !(len(script) == 23 && script[0] == 0xa9 && script[1] == 0x14 && script[22] == 0x87) {
+		return nil, fmt.Errorf("IsP2SH(%s) = true, the script is not the 23-byte pay-to-script-hash pattern", short(script))
+	}
+	if isP2PK || typ == bscript.ScriptTypePubKey {
+		if !decodable || len(toks) != 2 || !toks[0].IsPush || (len(toks[0].Data) != 33 && len(toks[0].Data) != 65) {
+			return nil, fmt.Errorf("IsP2PK(%s) = %v, ScriptType = %q: the script is not one key push followed by one more element (decodable=%v, %d elements)", short(script), isP2PK, typ, decodable, len(toks))
+		}
+	}
 	// the reported type is backed by its predicate
 	switch typ {
 	case bscript.ScriptTypePubKey:
@@ -510,6 +523,10 @@ func enumTemplates(tier string, yield func(Case)) {
 				y("enum:insert-zero-push", splice(tplBytes, t.Start, t.Start, z))
 			}
 			y("enum:remove", splice(tplBytes, t.Start, t.End, nil))
+			// (tenth round) something inserted between two elements of the template
+			for _, ins := range [][]byte{{0x61}, {0x75}, {0x76}, {0x88}, {0xad}, {0x87}, {0xac}, {0x51}, {0x01, 0xac}, {0x02, 0xab, 0xcd}} {
+				y("enum:insert-element", splice(tplBytes, t.Start, t.Start, ins))
+			}
 			y("enum:duplicate", splice(tplBytes, t.End, t.End, tplBytes[t.Start:t.End]))
 			if t.IsPush && len(t.Data) > 0 {
 				for keep := 1; keep <= 2 && keep <= len(t.Data); keep++ {
@@ -525,6 +542,18 @@ func enumTemplates(tier string, yield func(Case)) {
 				// length prefix kept, data shortened by 1 / emptied
 				y("enum:short-data", splice(tplBytes, t.End-1, t.End, nil))
 				y("enum:short-data", splice(tplBytes, t.End-len(t.Data), t.End, nil))
+			}
+		}
+	}
+	// (tenth round) one template instance followed by another, and the same with the first one's last
+	// element turned into its VERIFY form where there is one (<k1> CHECKSIGVERIFY <k2> CHECKSIG ...)
+	for _, a := range fixedTemplates() {
+		for _, b := range fixedTemplates() {
+			y("enum:concat", append(append([]byte(nil), a...), b...))
+			if last := a[len(a)-1]; last == 0xac || last == 0x87 || last == 0xae {
+				v := append([]byte(nil), a...)
+				v[len(v)-1] = last + 1
+				y("enum:concat-verify", append(v, b...))
 			}
 		}
 	}
@@ -561,6 +590,6 @@ func TestTemplates(t *testing.T) {
 		Name: "templates", Quick: 260000, Thorough: 5000000,
 		Gen: genTemplateCase, Check: check,
 		Enum:     enumTemplates,
-		EnumDesc: "12 fixed template instances (P2PKH, P2SH, P2PK 33/65, 1-of-1 and 2-of-3 multisig, OP_RETURN and OP_FALSE OP_RETURN data, three P2PKH inscriptions incl. a minimal one and one with an OP_RETURN tail): unmutated, every byte set to every other value, every prefix, every instruction replaced by / preceded by OP_0 and zero-length PUSHDATA1/2/4, removed, duplicated, every push shortened to 1 and 2 bytes, re-encoded in every wider push form, with its data cut, and the whole template followed by each of 7 unterminated pushes; plus all sequences of <= 3 (thorough: <= 5) atoms from {4c00, 4d0000, 00, 51, ae, ac, 21<key>}",
+		EnumDesc: "12 fixed template instances (P2PKH, P2SH, P2PK 33/65, 1-of-1 and 2-of-3 multisig, OP_RETURN and OP_FALSE OP_RETURN data, three P2PKH inscriptions incl. a minimal one and one with an OP_RETURN tail): unmutated, every byte set to every other value, every prefix, every instruction replaced by / preceded by OP_0 and zero-length PUSHDATA1/2/4, removed, duplicated, every push shortened to 1 and 2 bytes, re-encoded in every wider push form, with its data cut, with each of 10 elements inserted before it, and the whole template followed by each of 7 unterminated pushes; every ordered pair of instances concatenated (also with the first one ending in its VERIFY form); plus all sequences of <= 3 (thorough: <= 5) atoms from {4c00, 4d0000, 00, 51, ae, ac, 21<key>}",
 	})
 }
